@@ -228,11 +228,14 @@ def finish(prop, tier, seed, mod, results, t0, update_inventory, only):
                             solver_s=round(rec.get('solver_s', 0), 3)))
     for n, path, confirmed in violations[:3]:
         samples.append(dict(obligation=n, status='violated', replay=path, confirmed_on_real_code=confirmed))
-    level = getattr(mod, 'LEVEL', 'proof')
+    level = claimed_level(prop, mod)
+    n_known = len({n for _, n in known_hit if not obligations[n].get('bounded')})
     ev = dict(
         property_id=prop, tier=tier, seed=seed, level=level,
         coverage=dict(
-            obligations=n_obl - len(n_bounded), discharged=len(proved),
+            # obligations claimed at proof level: bounded stand-ins and the listed known findings are outside the claim
+            obligations=n_obl - len(n_bounded) - n_known, discharged=len(proved),
+            known_finding_obligations=len(known_hit),
             checker_cmd=f'./check {prop} --tier {tier}',
             trusted_base=sorted(trusted),
             functions_under_contract=[dict(qualname=q, **i) for q, i in sorted(functions.items())],
@@ -265,6 +268,17 @@ def finish(prop, tier, seed, mod, results, t0, update_inventory, only):
           f'{len(violations)} violated, {len(known_hit)} known, {len(undecided)} undecided, {len(faults)} faults; '
           f'{paths} paths, {compared} cross-checked against CPython; {round(time.time() - t0, 1)}s')
     return code
+
+
+def claimed_level(prop, mod):
+    """the level MANIFEST.json claims for this property (evidence must be a record for that level)"""
+    try:
+        for c in json.load(open(os.path.join(ROOT, 'MANIFEST.json')))['checks']:
+            if c['property_id'] == prop:
+                return c['level_claimed']['category']
+    except Exception:   # noqa
+        pass
+    return getattr(mod, 'LEVEL', 'proof')
 
 
 def match_known(known, name, rec):
